@@ -243,6 +243,10 @@ class Facts:
         for f in self.functions:
             if f.get('body') is not None and not f['file'].endswith('lex.yy.c'):
                 _desugar_lookups(f)
+        # an if / else-if chain that compares one expression with enumerators reads like the switch it replaces
+        for f in self.functions:
+            if f.get('body') is not None and not f['file'].endswith('lex.yy.c'):
+                _chains_to_switch(f['body'])
         # front-end health
         bad = [x for x in self.diagnostics if x['level'] == 'error' and x['in_root']]
         if bad:
@@ -638,6 +642,82 @@ def _desugar_lookups(f):
                 x['args'] = [_fresh(key)]
                 x['from_find'] = v['name']
         v['desugared_lookup'] = True
+
+
+def _enum_test(c):
+    """(subject expression, enumerator ref) of a condition `subject == Enumerator`"""
+    c = strip_casts(c)
+    while c is not None and c.get('k') == 'paren':
+        c = strip_casts(c['e'])
+    if c is None or c.get('k') != 'bin' or c.get('op') != '==':
+        return None
+    l, r = strip_casts(c['l']), strip_casts(c['r'])
+    for a, b in ((l, r), (r, l)):
+        if b is not None and b.get('k') == 'ref' and b.get('dk') == 'enumerator' and a is not None and a.get('k') in ('ref', 'member'):
+            if not any(x.get('k') == 'call' for x in walk_expr(a)):
+                return a, b
+    return None
+
+
+def _has_loose_break(s):
+    if s is None:
+        return False
+    if s['k'] == 'break':
+        return True
+    if s['k'] in ('for', 'while', 'do', 'rangefor', 'switch'):
+        return False
+    ss, _ = stmt_children(s)
+    return any(_has_loose_break(c) for c in ss)
+
+
+def _chains_to_switch(s):
+    """in place, bottom-up: if (S == A) X else if (S == B) Y [else Z]  ->  switch (S) { case A: X break; case B: Y break; default: Z }"""
+    if s is None:
+        return
+    ss, _ = stmt_children(s)
+    for c in ss:
+        _chains_to_switch(c)
+    if s['k'] != 'if' or s.get('var') or s.get('init'):
+        return
+    arms = []
+    cur = s
+    subj_txt = None
+    tail = None
+    while cur is not None and cur.get('k') == 'if' and not cur.get('var') and not cur.get('init'):
+        t = _enum_test(cur['c'])
+        if t is None or (subj_txt is not None and show(t[0]) != subj_txt):
+            break
+        subj_txt = show(t[0])
+        arms.append((t, cur['t']))
+        tail = cur.get('e')
+        cur = cur.get('e')
+        if cur is not None and cur.get('k') == 'block' and len(cur.get('s', [])) == 1 and cur['s'][0].get('k') == 'if':
+            cur = cur['s'][0]
+    else:
+        tail = None if cur is None else tail
+    if len(arms) < 2:
+        return
+    # the statement after the recognised arms: `cur` when the chain stopped at a non-matching else-if, otherwise the final else
+    rest = cur if (cur is not None and (cur.get('k') != 'if' or _enum_test(cur['c']) is None or show(_enum_test(cur['c'])[0]) != subj_txt)) else None
+    if rest is None:
+        rest = None
+    if any(_has_loose_break(body) for _, body in arms) or _has_loose_break(rest):
+        return
+    cases = []
+    for (subj, en), body in arms:
+        lab = {'enumerator': en.get('q'), 'name': en.get('name'), 'loc': en.get('loc')}
+        if en.get('v') is not None:
+            lab['v'] = en['v']
+        stmts = list(body['s']) if body is not None and body.get('k') == 'block' else ([body] if body is not None else [])
+        cases.append({'labels': [lab], 's': [{'k': 'block', 's': stmts, 'loc': (body or s).get('loc'), 'sid': None}, {'k': 'break', 'loc': (body or s).get('loc'), 'sid': None}]})
+    if rest is not None:
+        stmts = list(rest['s']) if rest.get('k') == 'block' else [rest]
+        cases.append({'labels': ['default'], 's': [{'k': 'block', 's': stmts, 'loc': rest.get('loc'), 'sid': None}]})
+    keep = {k: s.get(k) for k in ('loc', 'sid')}
+    subj = arms[0][0][0]
+    s.clear()
+    s.update({'k': 'switch', 'c': subj, 'cases': cases, 'from_if_chain': True})
+    s.update(keep)
 
 
 def walk_all_exprs(s):
